@@ -41,6 +41,24 @@ type LStr string
 
 type Größe struct{ V int }
 
+type Rune struct{ R rune }
+
+type Byte struct{ B byte }
+
+type String struct{ S string }
+
+type Int struct{ I int }
+
+type Bool struct{ B bool }
+
+type Error struct{ E error }
+
+type Any struct{ A any }
+
+type Uint8 struct{ U uint8 }
+
+type Float64 struct{ F float64 }
+
 type LI interface{ LM(x int) string }
 
 type li interface{ lm() }
@@ -217,15 +235,18 @@ class Gen:
             rs = ""
         return "%s(%s)%s" % (name, ps, rs)
 
-    def iface(self, feature, body, name=None, tparams="", targs=None, exported=True, extra_features=()):
+    def iface(self, feature, body, name=None, tparams="", targs=None, exported=True, extra_features=(), extra_decls=()):
         self.n += 1
         nm = name or ("%s%d" % ("Iface" if exported else "iface", self.n))
         return {"name": nm, "tparams": tparams, "body": body if isinstance(body, list) else [body], "feature": feature, "targs": targs or [],
-                "exported": nm[0].isupper(), "features": [feature] + list(extra_features)}
+                "exported": nm[0].isupper(), "features": [feature] + list(extra_features), "extra_decls": list(extra_decls)}
 
 
 def render_iface(i):
-    return "type %s%s interface {\n\t%s\n}\n" % (i["name"], i["tparams"], "\n\t".join(i["body"])) if i["body"] else "type %s%s interface{}\n" % (i["name"], i["tparams"])
+    text = "type %s%s interface {\n\t%s\n}\n" % (i["name"], i["tparams"], "\n\t".join(i["body"])) if i["body"] else "type %s%s interface{}\n" % (i["name"], i["tparams"])
+    for e in i.get("extra_decls", []):
+        text += "\n" + e.replace("{NAME}", i["name"]) + "\n"
+    return text
 
 
 def used_imports(text):
@@ -339,6 +360,18 @@ def catalogue(g):
         add("ident.qualifier." + nm, ["P(%s int, t %s.T) %s.T" % (nm, qa, qb), "Q(%s io.Reader, c context.Context) (http.Header, error)" % nm])
     add("ident.qualifier-own-type", ["P(model %s.T, http *http.Request, io io.Reader, context context.Context, time time.Duration) error" % qa])
     add("ident.type-name", ["P(string string, int int) (error error)", "Q(LS LS, T %s.T) LE" % qa, "R(LE int) (LS string)"])
+    for tn, pre in (("Rune", "rune"), ("Byte", "byte"), ("String", "string"), ("Int", "int"), ("Bool", "bool"), ("Error", "error"), ("Any", "any"),
+                    ("Uint8", "uint8"), ("Float64", "float64")):
+        # unnamed parameters: the derived variable name is the de-capitalised type name, i.e. a predeclared identifier used elsewhere in the signature
+        add("shape.local-named-like-predeclared." + tn, ["P(%s, []%s) map[%s]bool" % (tn, pre, pre) if pre not in ("any", "error", "bool") else "P(%s, []%s) []%s" % (tn, pre, pre),
+                                                         "Q(*%s, ...%s) (%s, error)" % (tn, pre, pre), "R(_ %s, _ map[string]%s)" % (tn, pre)])
+    # declarations around the interface that must not disturb its mock
+    add("decl.alias-of-own-generic-inst", ["Get(k string) (T, error)", "Put(v T)"], tparams="[T any]", targs=[["int"], ["string"]],
+        extra_decls=["type {NAME}IntAlias = {NAME}[int]", "type {NAME}StrDefined {NAME}[string]"])
+    add("decl.alias-of-iface", ["M(x int) error"], extra_decls=["type {NAME}Alias = {NAME}", "type {NAME}Defined {NAME}"])
+    add("decl.shadowed-in-func-literal", ["M(x int) error"],
+        extra_decls=["var {NAME}lit = func() int {\n\ttype {NAME} interface{ Other() }\n\tvar _ {NAME}\n\treturn 1\n}()",
+                     "func {NAME}fn() {\n\ttype {NAME} struct{ X int }\n\tvar _ {NAME}\n}"])
     add("ident.type-name-composite.local", ["P(LS int, xs []LS) map[string]LS"])
     add("ident.type-name-composite.foreign", ["P(T int, xs []%s.T) *%s.T" % (qa, qa), "Q(E string, m map[%s.E]int)" % qa])
     add("ident.type-name-composite.predeclared", ["P(int string, xs []int) map[int]int", "Q(error int) []error"])
